@@ -95,7 +95,10 @@ func repeatRuns(c *core.Ctx, bin, root string, files map[string]string, n int, f
 		if k == 0 {
 			trace = filepath.Join(root, ".trace")
 		}
-		r, err := gd.Run(c, bin, filepath.Join(root, "p"), args, trace, 0)
+		r, err := runJudged(c, bin, filepath.Join(root, "p"), args, trace, func() error {
+			os.RemoveAll(root)
+			return writeFiles(root, files)
+		})
 		if err != nil {
 			return nil, nil, false, err
 		}
@@ -118,7 +121,7 @@ func repeatRuns(c *core.Ctx, bin, root string, files map[string]string, n int, f
 		seen[key].Count++
 		if k%8 == 0 && r.Exit == 0 {
 			// "on every run": also the run that finds the previous run's own output in place
-			r2, err := gd.Run(c, bin, filepath.Join(root, "p"), args, "", 0)
+			r2, err := runJudged(c, bin, filepath.Join(root, "p"), args, "", nil)
 			if err != nil {
 				return nil, nil, false, err
 			}
@@ -545,7 +548,7 @@ func contextVariants(c *core.Ctx, bin string, pfiles map[string]string) ([]outco
 		if err := writeFiles(root, files); err != nil {
 			return nil, 0, err
 		}
-		if _, err := gd.Run(c, bin, filepath.Join(root, pk), []string{"."}, "", 0); err != nil {
+		if _, err := runJudged(c, bin, filepath.Join(root, pk), []string{"."}, "", nil); err != nil {
 			return nil, 0, err
 		}
 		data, _ := os.ReadFile(filepath.Join(root, pk, "derived.gen.go"))
@@ -557,7 +560,7 @@ func contextVariants(c *core.Ctx, bin string, pfiles map[string]string) ([]outco
 		if err := writeFiles(root, files); err != nil {
 			return nil, 0, err
 		}
-		r, err := gd.Run(c, bin, filepath.Join(root, v.cwd), v.args, "", 0)
+		r, err := runJudged(c, bin, filepath.Join(root, v.cwd), v.args, "", nil)
 		if err != nil {
 			return nil, 0, err
 		}
